@@ -209,6 +209,9 @@ class C12(Check):
         lat["n"] = min(lat["n"], 12)
         cfg = {"lat": lat, "bulk_max": 8, "upsert_p": 0.1, "never_p": 0.1}
         steps = actors.creates(rs["meta"], buckets, cfg)
+        if nb >= 2 and rs["names"].random() < 0.2:
+            # an earlier bucket's display name is a later bucket's id (a bucket renamed after the one that replaced it)
+            steps[0]["meta"]["name"] = buckets[1]
         pr = rs["populate"]
         for b in buckets:
             n = pr.randrange(0, 7)
